@@ -19,7 +19,7 @@
    changes, all other elements and their order stay"). *)
 From Coq Require Import List ZArith Bool Arith Lia.
 From SC Require Import Base.Res Base.PyList Inst.Heap Inst.ClassTable Inst.Model Inst.Canon Inst.Abs
-  Inst.SpecHelpers Inst.ElemProofs Inst.RefineProofs Inst.CopyProofs Inst.ElemRefineDep Inst.ElemRefine Inst.ElemRefine2 Inst.ElemRefine3 Inst.ElemRefine4 Inst.ElemRefine5 Inst.ElemRefine6 Inst.ElemRefine7 Inst.ElemRefine8 Inst.ElemRefine9 Inst.ElemRefine10 Inst.ElemRefine11 Inst.ElemRefine12 Inst.ElemRefine13 Inst.ElemRefineGuard.
+  Inst.SpecHelpers Inst.ElemProofs Inst.RefineProofs Inst.CopyProofs Inst.ElemRefineDep Inst.ElemRefine Inst.ElemRefine2 Inst.ElemRefine3 Inst.ElemRefine4 Inst.ElemRefine5 Inst.ElemRefine6 Inst.ElemRefine7 Inst.ElemRefine8 Inst.ElemRefine9 Inst.ElemRefine10 Inst.ElemRefine11 Inst.ElemRefine12 Inst.ElemRefine13 Inst.ElemRefine14 Inst.ElemRefineGuard.
 Import ListNotations.
 Open Scope nat_scope.
 
@@ -985,6 +985,28 @@ Proof.
   - intros voi v P Hv Hnv Hok. now apply update_item_set_nested_guarded.
 Qed.
 
+(* ... and with_<item> through an item preparer on a nested receiver (Inst/ElemRefine14.v) *)
+Theorem C06_with_item_preparer_nested_refine_guarded_partial : forall ct h0 s l a,
+  prep_items ct s l a = true -> fail_at s = None ->
+  (nested_guard ct s l a KList = true ->
+     forall idx v ins, vscalar v = true -> (idx = VMissing \/ exists i, idx = VInt i) ->
+       refines_spec ct h0 s l (HWithItem a) (mkh [v] true true idx ins None None [] None)
+                    (SWithItem a) (mkah [abs0 v] true true (abs0 idx) ins None None [] None)) /\
+  (nested_guard ct s l a KDict = true ->
+     forall key v, nonref key = true -> vscalar v = true ->
+       refines_spec ct h0 s l (HWithItem a) (mkh [key; v] true true VMissing false None None [] None)
+                    (SWithItem a) (mkah [abs0 key; abs0 v] true true AMissing false None None [] None)) /\
+  (nested_guard ct s l a KSet = true ->
+     forall v, vscalar v = true -> set_prep_ok ct s l a v = true ->
+       refines_spec ct h0 s l (HWithItem a) (mkh [v] true true VMissing false None None [] None)
+                    (SWithItem a) (mkah [abs0 v] true true AMissing false None None [] None)).
+Proof.
+  intros ct h0 s l a P Hfa. repeat split; intro G.
+  - intros idx v ins Hv Hi. now apply with_item_list_prep_nested_guarded.
+  - intros key v Hk Hv. now apply with_item_dict_prep_nested_guarded.
+  - intros v Hv Hok. now apply with_item_set_prep_nested_guarded.
+Qed.
+
 (* non-vacuity: a receiver whose attribute `sub` holds another instance, itself holding a list
    and a list of lists that share cells: the receiver is within nested_guard (not within
    elem_guard); the inner instance is not (its second attribute reaches the cell of its list);
@@ -1082,6 +1104,7 @@ Print Assumptions C06_with_item_preparer_refine_guarded_partial.
 Print Assumptions C06_update_item_preparer_refine_guarded_partial.
 Print Assumptions C06_preparer_examples.
 Print Assumptions C06_elem_helpers_nested_refine_guarded_partial.
+Print Assumptions C06_with_item_preparer_nested_refine_guarded_partial.
 Print Assumptions C06_nested_guard_examples.
 Print Assumptions C06_by_value_transforms_argument_refuted.
 Print Assumptions C06_by_value_transforms_argument_set_refuted.
